@@ -32,14 +32,16 @@ Proof. exact add_trace_spec. Qed.
 
 (* every jump, conditional jump, call and return form: a transfer that the ISA specification
    takes is recorded exactly once (source, target = new RIP, kind; call stack pushed / popped)
-   when the instruction completes; an untaken branch, and an instruction that fails, leave
-   trace and call stack untouched *)
+   when the instruction completes (for the relative forms the new RIP is the instruction's
+   branch operand); an untaken branch changes nothing at all, and an instruction that fails
+   leaves trace and call stack untouched *)
 Theorem C18_transfers : forall c i,
   is_cf_mnemonic (i_mnemonic i) = true ->
   forall s, pre i s ->
     exists r s', switch_instruction_mnemonic c i s = (r, s') /\
       let sm := code_sem (i_code i) in
-      if taken sm s then log_outcome i (variant_of sm) s r s' else same_log s s'.
+      if taken sm s then log_outcome i (variant_of sm) (rel_target_of sm i) s r s'
+      else same_log s s' /\ (r = Ok tt -> sm <> None -> s' = s).
 Proof. exact dispatch_cf. Qed.
 
 (* every other instruction never touches trace or call stack *)
